@@ -18,7 +18,7 @@ RULE = ('2-4 simulated threads each execute 1-3 source-line statements on one at
         'happened while a thread was between the read and the write of an augmented assignment; distinct = distinct '
         '(statement kinds per thread, interleaving of statement begin/end events) tuples.')
 ASSUMPTIONS = ['single instance, single attribute (independence of instances is C29)']
-PROBES = ['switch_inside_augmented_assignment', 'statements_in_active_object_handler', 'one_source_line_with_objects_of_two_classes']
+PROBES = ['switch_inside_augmented_assignment', 'statements_in_active_object_handler', 'one_source_line_with_objects_of_two_classes', 'threads_with_one_name']
 PLAN = {
   'quick': {'strata': {'threads': 6000, 'active-object': 1500, 'shared-lines': 2500}, 'wall_s': 300, 'chunk': 100, 'min_conclusive': 1000},
   'thorough': {'strata': {'threads': 150000, 'active-object': 40000, 'shared-lines': 60000}, 'wall_s': 900, 'chunk': 250, 'min_conclusive': 1000},
@@ -272,7 +272,7 @@ def generate(seed, stratum, tier):
           k = rng.choice([1, 6, 12, 255])
         sts.append({'kind': 'aug', 'op': op, 'k': k})
     threads.append(sts)
-  sc = {'threads': threads,
+  sc = {'threads': threads, 'same_names': rng.random() < 0.3,
         'sched': common.draw_sched(rng, grans=('line', 'opcode'), weights=(1, 2), expected_steps=250, policies=('sticky', 'pct'))}
   if stratum == 'active-object':
     # the documented use: the attribute belongs to an ActiveObjectWithAttributes; the statements of thread 0 are executed
@@ -523,8 +523,22 @@ def execute(sc, sched):
       import traceback
       errors.append((k, done[k], type(e).__name__, traceback.format_exc()[-600:]))
 
-  for k in range(n):
-    sim.spawn(client, (k,), role='client')
+  if sc.get('same_names'):
+    # the threads are made with threading.Thread and carry one and the same name (pool workers): nothing may tell
+    # threads apart by their name
+    def main():
+      ths = []
+      for k in range(n):
+        t = prims.SimThread(target=client, args=(k,))
+        t.name = 'worker'
+        ths.append(t)
+      for t in ths:
+        t.start()
+    sim.spawn(main, role='main')
+    sim.probe('threads_with_one_name')
+  else:
+    for k in range(n):
+      sim.spawn(client, (k,), role='client')
   reason = sim.run()
   lock = tc.lock_of(cls, 'a')
   if reason == 'budget':
